@@ -68,10 +68,23 @@ func main() {
 			fmt.Fprintln(os.Stderr, err)
 			os.Exit(2)
 		}
+		if len(cs) > 8 {
+			// a batch of shrink candidates: a candidate that hangs (the change under test may
+			// deadlock the engine once it has misbehaved) must not cost a second each; the
+			// partial log of a run that is given up is still checked
+			// (each also costs a fresh child process), and the whole batch gets 30 s: candidates
+			// that were not reached are simply not reported
+			runner.Close()
+			os.Setenv("VERIF_ENGINEX_DEADLINE_MS", "300")
+		}
+		t0 := time.Now()
 		for _, m := range cs {
 			var c enginex.Case
 			if !hx.Try(func() { c = enginex.CaseFromJSON(m) }) {
 				continue
+			}
+			if len(cs) > 8 && time.Since(t0) > 30*time.Second {
+				break
 			}
 			emit(c)
 		}
